@@ -35,17 +35,18 @@
 
    Norm -- the places where two honest readings may differ, fixed here:
      N1 reserved bits are masked: MIUX to 11 bits, RW to 4 bits, OPT to 3 bits, the
-        N(S) nibble of RR/RNR is ignored (LLCP 1.3 4.5.2/4.5.5/4.5.7, 4.3.11/12:
-        "reserved, set to 0 by the sender, ignored by the receiver").
+        N(S) nibble of RR/RNR is ignored (LLCP 1.3, MIUX/RW/OPT parameter and RR/RNR
+        PDU formats: reserved bits are set to 0 by the sender, ignored by the receiver).
      N2 an absent MIUX TLV in CONNECT/CC = MIUX 0 (miu 128), an absent RW TLV = RW 1
-        (LLCP 1.3 4.5.2, 4.5.5 defaults); the record has only `miu` and `rw`.
+        (the defaults LLCP 1.3 gives for both parameters); the record has only `miu`
+        and `rw`.  RW = 0 is a value of its own ("accepts no I PDUs") and needs the TLV.
         In PAX the presence of each TLV is kept (-1 = absent): nothing is defaulted.
      N3 an empty SN TLV = no SN TLV (a zero length service name names nothing;
         pdu.py warns and len() reports 2).  Same for zero-length ECPK and RN TLVs in
         DPS (no key / nonce material; tests/test_llcp_pdu.py expects len 2).
      N4 SNL keeps two lists, SDREQ and SDRES, each in arrival order; the relative
         order of an SDREQ and an SDRES is not part of the value (pdu.py re-encodes all
-        SDREQ first; LLCP 1.3 4.3.10 puts no meaning on TLV order).
+        SDREQ first; LLCP 1.3 puts no meaning on the order of TLVs in an SNL PDU).
    Choices taken from pdu.py's documented behaviour (tests/test_llcp_pdu.py), where
    LLCP gives no rule for a *receiver* (they are part of Decode, not of Norm):
      D1 unknown TLV types, and known TLV types that a PDU does not use, are skipped.
@@ -60,10 +61,10 @@
      D7 the SDRES SAP octet and the VERSION, LTO, WKS values are taken as they are.
      D8 TLV order produced by Encode: PAX VERSION, MIUX, WKS, LTO, OPT; CONNECT MIUX,
         RW, SN; SNL all SDREQ then all SDRES; DPS ECPK, RN (the test table).
-     D9 AGF nesting: LLCP 1.3 4.3.3 does not let an LLC aggregate AGF PDUs; pdu.py
-        decodes a nested AGF like any other member.  Decode accepts nesting,
-        DecodeNoNest is the strict reading (ERR "agf-nested"); the trace judge accepts
-        either and records which one matched.
+     D9 AGF nesting: an LLC aggregates only non-AGF PDUs; pdu.py used to decode a nested
+        AGF like any other member (and recursed without bound), since commit bdd1fd6 it
+        is a DecodeError.  Decode accepts nesting, DecodeNoNest is the strict reading
+        (ERR "agf-nested"); the trace judge accepts either and records which matched.
    DecodeLoose is NOT a reading of LLCP: it models pdu.py as it is (TLVs and AGF
    length fields bounded by the end of the whole buffer instead of the slice) so that
    a disagreement caused by that defect is reported under the invariant OwnSlice.
